@@ -527,6 +527,12 @@ def process(ctx, chunk, triples, state):
         for d in dis:
             ctx.disagree("model-vs-implementation", {"what": d, "pred": p, "ref": r, "backend": bk})
         for kind, v in viol:
+            state["nviol"] += 1
+            if state["nviol"] > 8:          # enough detailed replays; keep counting, stay within the time budget
+                ctx.bump("violations beyond the first 8 (not shrunk)")
+                if len(ctx.violations) < 30:
+                    ctx.violation(v, {"pred": p, "ref": r, "backend": bk, "implementation": describe(im), "model": o504})
+                continue
             sp, sr = p, r
             if state["shrunk"] < 3:
                 state["shrunk"] += 1
@@ -552,7 +558,7 @@ def describe(im):
 
 def run(ctx):
     private_engine()
-    state = {"ok": 0, "rejected": 0, "shrunk": 0, "pairs": {}}
+    state = {"ok": 0, "rejected": 0, "shrunk": 0, "nviol": 0, "pairs": {}}
     triples = []
     # model rules (default backend, dtype chain) on boundary values, against the implementation's helpers
     from panoptica.utils.numpy_utils import _get_smallest_fitting_uint
@@ -595,9 +601,18 @@ def run(ctx):
 
 def replay(path):
     d = json.loads(open(path).read())
+    private_engine()
+    if "value" in d and "pred" not in d:       # dtype rule on a single value
+        from panoptica.utils.numpy_utils import _get_smallest_fitting_uint
+        v = int(d["value"])
+        iw = np.dtype(_get_smallest_fitting_uint(v)).itemsize * 8
+        mw = engine_run(503, [[3, v]])[0][1]
+        print(f"_get_smallest_fitting_uint({v}): implementation uint{iw}, model uint{mw}, value fits: {0 <= v < 2 ** iw}")
+        ok = iw == mw and 0 <= v < 2 ** iw
+        print("agree" if ok else "DIFFER")
+        return 0 if ok else 1
     pred, ref = common.arr_from_json(d["pred"]), common.arr_from_json(d["ref"])
     bk = d["backend"]
-    private_engine()
     viol, dis, im, mo = evaluate(pred.copy(), ref.copy(), bk)
     print("backend:", bk or "default", " dtype:", pred.dtype)
     print("prediction map:\n", pred, "\nreference map:\n", ref)
